@@ -82,7 +82,7 @@ def step (s : State) (t : List String) : State × String :=
       let (s', r) := checkTx s x f g
       let rs := match r with
         | .full => "err:full" | .tooLarge => "err:toolarge" | .inCache => "err:incache"
-        | .added => "added" | .rejected => "rejected"
+        | .present => "present" | .added => "added" | .rejected => "rejected"
       fin rs s'
     | _, _, _ => bad
   | ["update", h, c, a] =>
